@@ -18,6 +18,7 @@ import (
 	"berty.tech/go-orbit-db/address"
 	"berty.tech/go-orbit-db/events"
 	"berty.tech/go-orbit-db/iface"
+	"berty.tech/go-orbit-db/internal/verifhook"
 	"berty.tech/go-orbit-db/messagemarshaler"
 	"berty.tech/go-orbit-db/pubsub/pubsubcoreapi"
 	"berty.tech/go-orbit-db/stores"
@@ -306,6 +307,7 @@ func (b *BaseStore) InitBaseStore(ipfs coreiface.CoreAPI, identity *identityprov
 
 				// @FIXME(gfanton): should we run this in a goroutine ?
 				b.replicationLoadComplete(ctx, evt.Logs)
+				verifhook.Point("store.load_end_done", b.id)
 
 			case replicator.EventLoadProgress:
 				span.AddEvent("replicator-load-progress")
@@ -840,6 +842,7 @@ func (b *BaseStore) AddOperation(ctx context.Context, op operation.Operation, on
 	if err != nil {
 		return nil, fmt.Errorf("unable to append data on log: %w", err)
 	}
+	verifhook.Point("store.after_append", b.id, e.GetHash().String())
 
 	b.recalculateReplicationStatus(e.GetClock().GetTime())
 
@@ -852,10 +855,12 @@ func (b *BaseStore) AddOperation(ctx context.Context, op operation.Operation, on
 	if err != nil {
 		return nil, fmt.Errorf("unable to add data to cache: %w", err)
 	}
+	verifhook.Point("store.after_persist", b.id, e.GetHash().String())
 
 	if err := b.updateIndex(ctx); err != nil {
 		return nil, fmt.Errorf("unable to update index: %w", err)
 	}
+	verifhook.Point("store.after_index", b.id, e.GetHash().String())
 
 	if err := b.emitters.evtWrite.Emit(stores.NewEventWrite(b.Address(), e, oplog.Heads().Slice())); err != nil {
 		b.logger.Warn("unable to emit event write", zap.Error(err))
